@@ -217,6 +217,28 @@ def close_is_disconnect_plus_socket_close(b):
 close_is_disconnect_plus_socket_close.bound = "two datapath ids"
 
 
+def deferred_down_is_raised_by_the_later_close(b):
+  """a fatal send error disconnects with the event deferred (Connection.send); the close that follows when the select loop
+  notices the dead socket must still announce the loss - once"""
+  nexus, con, other, third, dpid, halt, cs = env(b, "self")
+  b.set(con, "disconnected", False)
+  b.set(con, "disconnection_raised", False)
+  def run(con):
+    con.disconnect(defer_event=True)
+    n_before = len([e for e in log(b) if e[0] == "event" and e[2] == "ConnectionDown"])
+    con.close()
+    con.close()
+    return (n_before, con.disconnected, con.disconnection_raised)
+  downs = lambda: [e for e in log(b) if e[0] == "event" and e[2] == "ConnectionDown"]
+  return Case(run, [con], calls=cs, raises={}, ensures={
+    "nothing_is_announced_while_deferred": lambda res: res[0] == 0,
+    "the_close_announces_the_loss_exactly_once":
+      lambda res: len(downs()) == 2 and downs()[0][1] is nexus and downs()[1][1] is con and res[1] is True and res[2] is True,
+  })
+deferred_down_is_raised_by_the_later_close.bound = "two datapath ids"
+unit(P, target=OF + "Connection.disconnect(defer_event=True) / Connection.close")(deferred_down_is_raised_by_the_later_close)
+
+
 # ---------------------------------------------------------------- nexus registry operations
 
 def _mk_send_to_dpid(reg_kind):
